@@ -155,3 +155,192 @@ Proof.
       * destruct (iruns (inext f) (S f) r k cur p) as [[o1 [c1 p1]] ev1] eqn:E. inv_ret Hc.
         exact (iruns_ok _ _ _ _ IHz r (S f) k (cur, p) _ _ _ Hok E).
 Qed.
+
+(* ---- fuel ---- *)
+From Juniper Require Import Iter.Fuel.
+
+Lemma isize_pos s : (1 <= isize s)%nat.
+Proof. destruct s; simpl; lia. Qed.
+Lemma ilsize_pos q : (1 <= ilsize q)%nat.
+Proof. destruct q; simpl; lia. Qed.
+
+Lemma isrc_next_size src :
+  match isrc_next src with
+  | (Some _, src') => (isrc_size src' < isrc_size src)%nat
+  | (None, src') => src' = src
+  end.
+Proof.
+  destruct src as [a|i n|x n|]; simpl; auto.
+  - destruct a; simpl; auto.
+  - destruct (n <=? i) eqn:E; simpl; auto. apply Z.leb_gt in E. lia.
+  - destruct (n <=? 0) eqn:E; simpl; auto. apply Z.leb_gt in E. lia.
+Qed.
+
+Theorem inext_size : forall f, szZ (inext f) isize f /\ szL (ilnext f) ilsize f.
+Proof.
+  induction f as [|f [IHz IHl]].
+  - split; intros s o s' ev Hc; simpl in Hc; inv_ret Hc.
+    + split; [exact I|]. pose proof (isize_pos s'). lia.
+    + split; [exact I|]. pose proof (ilsize_pos s'). lia.
+  - split; intros s o s' ev Hc.
+    + destruct s as [id src|p|r first prev p|keep p|x p|rest curr|its|g p|g done p|b q];
+        cbn [inext] in Hc.
+      * pose proof (isrc_next_size src) as Hs.
+        destruct (isrc_next src) as [[x|] src'] eqn:E; inv_ret Hc; simpl.
+        -- split; [lia|discriminate].
+        -- split; [lia|discriminate].
+      * destruct (ipk_next (inext f) p) as [[o1 p1] ev1] eqn:E. inv_ret Hc.
+        destruct (ipk_next_sz _ _ _ IHz _ _ _ _ E) as [Hd Hno]. unfold pksz in Hd. simpl.
+        split; [destruct o; lia|]. intros H. apply Hno. lia.
+      * destruct (icompact (inext f) (S f) r first prev p) as [[o1 [[f1 pr1] p1]] ev1] eqn:E.
+        inv_ret Hc. destruct (icompact_sz _ _ _ IHz _ _ _ _ _ _ _ _ _ _ E) as [Hd Hno]. simpl.
+        split; [destruct o; lia|]. intros H. apply Hno; lia.
+      * destruct (ifilter (inext f) (S f) keep p) as [[o1 p1] ev1] eqn:E. inv_ret Hc.
+        destruct (ifilter_sz _ _ _ IHz _ _ _ _ _ _ E) as [Hd Hno]. simpl.
+        split; [destruct o; lia|]. intros H. apply Hno; lia.
+      * destruct (ifirst (inext f) x p) as [[o1 [x1 p1]] ev1] eqn:E. inv_ret Hc.
+        destruct (ifirst_sz _ _ _ IHz _ _ _ _ _ _ E) as [Hd Hno]. simpl.
+        split; [destruct o; lia|]. intros H. apply Hno; lia.
+      * destruct (iflatten (inext f) (S f) rest curr) as [[o1 [r1 c1]] ev1] eqn:E. inv_ret Hc.
+        destruct (iflatten_sz _ _ _ IHz _ _ _ _ _ _ _ E) as [Hd Hno]. unfold flsz in *. simpl.
+        split; [destruct o; lia|]. intros H. apply Hno; lia.
+      * destruct (ijoin (inext f) (S f) its) as [[o1 its1] ev1] eqn:E. inv_ret Hc.
+        destruct (ijoin_sz _ _ _ IHz _ _ _ _ _ E) as [Hd Hno]. unfold jsz in *. simpl.
+        split; [destruct o; lia|]. intros H. apply Hno; lia.
+      * destruct (imap (inext f) g p) as [[o1 p1] ev1] eqn:E. inv_ret Hc.
+        destruct (imap_sz _ _ _ IHz _ _ _ _ _ E) as [Hd Hno]. simpl.
+        split; [destruct o; lia|]. intros H. apply Hno; lia.
+      * destruct (iwhile (inext f) g done p) as [[o1 [d1 p1]] ev1] eqn:E. inv_ret Hc.
+        destruct (iwhile_sz _ _ _ IHz _ _ _ _ _ _ _ E) as [Hd Hno]. simpl.
+        split; [destruct o; lia|]. intros H. apply Hno; lia.
+      * destruct (iflatslices (ilnext f) (S f) b q) as [[o1 [b1 q1]] ev1] eqn:E. inv_ret Hc.
+        destruct (iflatslices_sz _ _ _ IHl _ _ _ _ _ _ _ E) as [Hd Hno]. simpl.
+        split; [destruct o; lia|]. intros H. apply Hno; destruct b; simpl in *; lia.
+    + destruct s as [size p|r k cur p]; cbn [ilnext] in Hc.
+      * destruct (ichunk (inext f) (S f) size p) as [[o1 p1] ev1] eqn:E. inv_ret Hc.
+        destruct (ichunk_sz _ _ _ IHz _ _ _ _ _ _ E) as [Hd Hno]. simpl.
+        split; [|intros H; apply Hno; lia]. destruct o; try lia.
+        destruct Hd as [Ha Hb]. split; [lia|]. intros Hl. specialize (Hb Hl). lia.
+      * destruct (iruns (inext f) (S f) r k cur p) as [[o1 [c1 p1]] ev1] eqn:E. inv_ret Hc.
+        destruct (iruns_sz _ _ _ IHz _ _ _ _ _ _ _ _ _ E) as [Hd Hno]. unfold rsz in *. simpl.
+        split; [|intros H; apply Hno; lia]. destruct o; lia.
+Qed.
+
+(* the fuel of the runners is enough: a step never answers Out *)
+Corollary inext_fuel_enough s o s' ev : istep s = (o, s', ev) -> o <> Out.
+Proof.
+  unfold istep. intros Hc. destruct (inext_size (S (isize s))) as [Hz _].
+  destruct (Hz _ _ _ _ Hc) as [_ Hno]. apply Hno. lia.
+Qed.
+Corollary ilnext_fuel_enough q o q' ev : ilstep q = (o, q', ev) -> o <> Out.
+Proof.
+  unfold ilstep. intros Hc. destruct (inext_size (S (ilsize q))) as [_ Hl].
+  destruct (Hl _ _ _ _ Hc) as [_ Hno]. apply Hno. lia.
+Qed.
+
+(* ---- initial states denote the pipeline ---- *)
+Lemma isrc_init_items s : isource_supported s = true -> isrc_items (isrc_init s) = src_items s.
+Proof.
+  destruct s as [l|n|x n| |l|evs]; simpl; intros H; try reflexivity; try discriminate.
+  unfold counter_items. rewrite Z.sub_0_r. apply map_ext. intros k. lia.
+Qed.
+
+Lemma concat_map_ext {A B} (f g : A -> list B) l :
+  Forall (fun x => f x = g x) l -> concat (map f l) = concat (map g l).
+Proof. induction 1 as [|x t Hx Ht IH]; simpl; [reflexivity|]. rewrite Hx, IH. reflexivity. Qed.
+
+Lemma iinit_den :
+  (forall p, iter_supported_z p = true -> iden (iinit p) = den_z p) /\
+  (forall q, iter_supported_l q = true -> ilden (ilinit q) = den_l q).
+Proof.
+  apply pipe_ind; simpl; intros;
+    try match goal with
+        | IH : iter_supported_z ?p = true -> _, Hs : iter_supported_z ?p = true |- _ =>
+            specialize (IH Hs)
+        end.
+  - apply isrc_init_items; assumption.
+  - unfold pkden; simpl; auto.
+  - rewrite H. reflexivity.
+  - rewrite H. reflexivity.
+  - unfold fden; simpl. rewrite H. reflexivity.
+  - unfold flden; simpl. rewrite map_map. apply concat_map_ext.
+    rewrite forallb_forall in H0. rewrite Forall_forall in *. intros x Hx. apply H; auto.
+  - unfold jden. rewrite map_map. apply concat_map_ext.
+    rewrite forallb_forall in H0. rewrite Forall_forall in *. intros x Hx. apply H; auto.
+  - rewrite H. reflexivity.
+  - unfold wden; simpl. rewrite H. reflexivity.
+  - discriminate.
+  - rewrite H. reflexivity.
+  - unfold rden; simpl. unfold pkden; simpl. rewrite H. reflexivity.
+Qed.
+
+Lemma iinit_ok : (forall p, dom_z p -> iok (iinit p)) /\ (forall q, dom_l q -> ilok (ilinit q)).
+Proof.
+  apply pipe_ind; simpl; intros; auto.
+  - split; [|exact I]. induction H as [|x t Hx Ht IH]; simpl in *; [exact I|].
+    destruct H0 as [H1 H2]. split; auto.
+  - induction H as [|x t Hx Ht IH]; simpl in *; [exact I|].
+    destruct H0 as [H1 H2]. split; auto.
+  - destruct H0 as [H1 H2]. split; [lia|auto].
+Qed.
+
+(* ---- runs of k Next calls ---- *)
+Definition results (r : run_obs) : list robs := map so_res (ro_steps r).
+
+Lemma irun_steps_z ids : forall lives s log,
+  iok s ->
+  map so_res (fst (irun_steps ids (RZ s) log (map CNext lives)))
+  = expect (map IZ (iden s)) (length lives).
+Proof.
+  induction lives as [|b lives IH]; intros s log Hok; simpl; [reflexivity|].
+  destruct (istep s) as [[o s1] ev1] eqn:E.
+  pose proof (inext_fuel_enough _ _ _ _ E) as Hno.
+  destruct (inext_contract (S (isize s))) as [Hz _].
+  destruct (Hz _ _ _ _ Hok E) as (Hok1 & Hp & _).
+  destruct o as [x| | | |]; simpl in Hp;
+    [| |destruct Hp as [Hx _]; discriminate Hx|destruct Hp|congruence].
+  - simpl. rewrite Hp. simpl.
+    destruct (irun_steps ids (RZ s1) (log ++ ev1) (map CNext lives)) as [r l] eqn:E2.
+    simpl. f_equal. specialize (IH s1 (log ++ ev1) Hok1). rewrite E2 in IH. exact IH.
+  - destruct Hp as (Hd & Hd' & Hfin). simpl. rewrite Hd. simpl.
+    destruct (irun_steps ids (RZ s1) (log ++ ev1) (map CNext lives)) as [r l] eqn:E2.
+    simpl. f_equal. specialize (IH s1 (log ++ ev1) Hok1). rewrite E2, Hd' in IH. exact IH.
+Qed.
+
+Lemma irun_steps_l ids : forall lives q log,
+  ilok q ->
+  map so_res (fst (irun_steps ids (RL q) log (map CNext lives)))
+  = expect (map IL (ilden q)) (length lives).
+Proof.
+  induction lives as [|b lives IH]; intros q log Hok; simpl; [reflexivity|].
+  destruct (ilstep q) as [[o q1] ev1] eqn:E.
+  pose proof (ilnext_fuel_enough _ _ _ _ E) as Hno.
+  destruct (inext_contract (S (ilsize q))) as [_ Hl].
+  destruct (Hl _ _ _ _ Hok E) as (Hok1 & Hp & _).
+  destruct o as [x| | | |]; simpl in Hp;
+    [| |destruct Hp as [Hx _]; discriminate Hx|destruct Hp|congruence].
+  - simpl. rewrite Hp. simpl.
+    destruct (irun_steps ids (RL q1) (log ++ ev1) (map CNext lives)) as [r l] eqn:E2.
+    simpl. f_equal. specialize (IH q1 (log ++ ev1) Hok1). rewrite E2 in IH. exact IH.
+  - destruct Hp as (Hd & Hd' & Hfin). simpl. rewrite Hd. simpl.
+    destruct (irun_steps ids (RL q1) (log ++ ev1) (map CNext lives)) as [r l] eqn:E2.
+    simpl. f_equal. specialize (IH q1 (log ++ ev1) Hok1). rewrite E2, Hd' in IH. exact IH.
+Qed.
+
+(* C07, iterators: k Next calls on any pipeline answer the first k items of its denotation and
+   then the end, for ever *)
+Theorem iter_steps_den cfg p lives :
+  iter_supported p = true -> dom p ->
+  results (run_iter_cfg cfg p (Steps (map CNext lives))) = expect (den p) (length lives).
+Proof.
+  intros Hs Hd. unfold results, run_iter_cfg.
+  destruct (irun_steps (sort_ids (pipe_ids p)) (irun_init p) [] (map CNext lives))
+    as [steps log] eqn:E. simpl.
+  destruct p as [p|q]; simpl in *.
+  - pose proof (irun_steps_z (sort_ids (pz_ids p)) lives (iinit p) []
+                  (proj1 iinit_ok p Hd)) as H.
+    rewrite E in H. simpl in H. rewrite H. rewrite (proj1 iinit_den p Hs). reflexivity.
+  - pose proof (irun_steps_l (sort_ids (pl_ids q)) lives (ilinit q) []
+                  (proj2 iinit_ok q Hd)) as H.
+    rewrite E in H. simpl in H. rewrite H. rewrite (proj2 iinit_den q Hs). reflexivity.
+Qed.
